@@ -78,17 +78,30 @@ BOUNDED_SCEN = {
     "C14": [["bulk"]], "C16": [["flushdur"]], "C17": [["stats"]], "C18": [["determ"]],
 }
 _replay_built = [False]
+WORK = os.environ.get("VERIF_WORK", ROOT)     # where out/ and evidence/ go (a regression run over seeded changes uses its own)
 def _replay_exe():
-    import subprocess
-    rdir = os.path.join(ROOT, "replay"); tdir = os.path.join(ROOT, "out", "replay-target")
+    """builds /verif/replay against the tree under check; None if it does not build (never a stale binary)"""
+    import subprocess, hashlib as _h
+    rdir = os.path.join(ROOT, "replay"); tdir = os.path.join(WORK, "out", "replay-target")
+    if os.path.realpath(run.REPO) != "/repo":
+        # a tree other than /repo (regression runs on scratch copies): same sources, path dependency rewritten
+        tag = _h.md5(os.path.realpath(run.REPO).encode()).hexdigest()[:10]
+        rdir2 = os.path.join(WORK, "out", "replay-src-" + tag)
+        os.makedirs(os.path.join(rdir2, "src"), exist_ok=True)
+        open(os.path.join(rdir2, "Cargo.toml"), "w").write(open(os.path.join(rdir, "Cargo.toml")).read().replace('path = "/repo"', 'path = "%s"' % os.path.realpath(run.REPO)))
+        shutil.copy(os.path.join(rdir, "src", "main.rs"), os.path.join(rdir2, "src", "main.rs"))
+        if os.path.exists(os.path.join(rdir, "Cargo.lock")): shutil.copy(os.path.join(rdir, "Cargo.lock"), os.path.join(rdir2, "Cargo.lock"))
+        rdir = rdir2; tdir = os.path.join(WORK, "out", "replay-target-" + tag)
+    exe = os.path.join(tdir, "debug", "abyss-replay")
     if not _replay_built[0]:
         try:
-            subprocess.run(["cargo", "build", "--offline", "-q"], cwd=rdir, env=dict(os.environ, CARGO_TARGET_DIR=tdir, CARGO_NET_OFFLINE="true"),
-                           stdout=subprocess.DEVNULL, stderr=subprocess.DEVNULL, timeout=300)
+            p_ = subprocess.run(["cargo", "build", "--offline", "-q"], cwd=rdir, env=dict(os.environ, CARGO_TARGET_DIR=tdir, CARGO_NET_OFFLINE="true"),
+                                stdout=subprocess.DEVNULL, stderr=subprocess.DEVNULL, timeout=600)
         except Exception:
             return None
+        if p_.returncode != 0:
+            return None
         _replay_built[0] = True
-    exe = os.path.join(tdir, "debug", "abyss-replay")
     return exe if os.path.exists(exe) else None
 
 def thorough_extra_scenarios(prop):
@@ -116,16 +129,8 @@ def bounded_scenarios(prop, budget=240, tier="quick"):
 def witness_search(oid_):
     """returns (argv, output) of the first scenario that fails on the real crate, or None. Time-boxed."""
     import subprocess
-    rdir = os.path.join(ROOT, "replay"); tdir = os.path.join(ROOT, "out", "replay-target")
-    if not _replay_built[0]:
-        try:
-            subprocess.run(["cargo", "build", "--offline", "-q"], cwd=rdir, env=dict(os.environ, CARGO_TARGET_DIR=tdir, CARGO_NET_OFFLINE="true"),
-                           stdout=subprocess.DEVNULL, stderr=subprocess.DEVNULL, timeout=300)
-        except Exception:
-            return None
-        _replay_built[0] = True
-    exe = os.path.join(tdir, "debug", "abyss-replay")
-    if not os.path.exists(exe): return None
+    exe = _replay_exe()
+    if not exe: return None
     t_end = time.time() + 60
     for rx, scen in WITNESS:
         if not re.search(rx, oid_): continue
@@ -195,11 +200,11 @@ def check(prop, tier, args):
     if getattr(args, "replay", None):
         return do_replay(prop, args.replay)
     seed = int(os.environ.get("VERIF_SEED", "0") or 0)
-    outdir = os.path.join(ROOT, "out", prop)
+    outdir = os.path.join(WORK, "out", prop)
     shutil.rmtree(outdir, ignore_errors=True)
     os.makedirs(outdir, exist_ok=True)
-    os.makedirs(os.path.join(ROOT, "evidence"), exist_ok=True)
-    evpath = os.path.join(ROOT, "evidence", prop + ".json")
+    os.makedirs(os.path.join(WORK, "evidence"), exist_ok=True)
+    evpath = os.path.join(WORK, "evidence", prop + ".json")
     known = run.load_known()
     undecided = []
     failures = []          # dicts with 'oid', 'backend', ...
@@ -373,8 +378,8 @@ def check(prop, tier, args):
     for f, k in knowns:
         lines.append("KNOWN-FINDING: property=%s %s — %s [witness: %s]" % (prop, f["oid"], k.get("note", ""), k.get("witness", "")))
     for f in violations:
-        os.makedirs(os.path.join(ROOT, "out", "replay", prop), exist_ok=True)
-        rp = os.path.join(ROOT, "out", "replay", prop, sanitize(f["oid"]) + ".json")
+        os.makedirs(os.path.join(WORK, "out", "replay", prop), exist_ok=True)
+        rp = os.path.join(WORK, "out", "replay", prop, sanitize(f["oid"]) + ".json")
         witness = f.get("witness")
         ws = None if witness else witness_search(f["oid"])
         if ws: witness = {"replay_scenario": "abyss-replay " + " ".join(ws[0]), "real_code_output": ws[1]}
